@@ -56,3 +56,12 @@ e3("C13", "Bounded symbolic execution of the real report path (CoverageSaveVisit
           "get_coverage()/get_inst_coverage() on every path and reporting leaves the state untouched. Text report: names/counts on concrete "
           "histories. The UCIS XML write/read round trip is not claimed (lxml/text formatting make counts concrete).",
    "symbolic execution of the real Python code with z3 (all hit counts symbolic), enumerated populations; XML part not applicable", "DESIGN.md section 6 C13 / section 7")
+
+e1("C03", "Translation validation over call histories: objects with fields that are random / non-random by declaration, by rand_mode toggles, "
+          "by living in a non-random sub-object or by not being passed to a free-standing vsc.randomize(...); histories interleave assignments, "
+          "rand_mode/constraint_mode toggles, rangelist and list edits with the four call kinds (including calls made unsatisfiable). For every "
+          "call z3 proves, for all random-field values, that the asserted formula is EQUIVALENT to the reference instantiated with the values, "
+          "rangelist/list contents and random partition current at that call, and the facade-visible values of everything not random in the call "
+          "are compared before/after (also when the call fails). Histories are enumerated/seeded up to the stated length.",
+   "translation validation per call of a history: z3 equivalence with the reference under the current non-random state; before/after observation of non-random fields",
+   "DESIGN.md section 6 C03")
